@@ -168,6 +168,12 @@ def annotation_program(pos, typ, obs):
             return None
         if otag == "signature" and holder in ("Box",) and pos in ("class-attr",):
             return None
+        if otag == "hints" and holder == "Box" and "Later" in expr and ("'" in expr or '"' in expr):
+            # typing.get_type_hints(<class>) resolves a STRING annotation through sys.modules[cls.__module__].__dict__,
+            # i.e. sys.modules['__main__'] - the grader's own main module under the sandbox (for a function it uses
+            # f.__globals__, which is the student's namespace).  Module plumbing the notes list as seen and deliberately
+            # not generated (notes/C06.md section 7); 6 of the 26 325 combinations, first sampled in round 3.
+            return None
     text = otext.replace("{D}", ann_dict or "").replace("{C}", call_expr or "").replace("{H}", holder)
     code = before + template.replace("{T}", expr).replace("{{", "{").replace("}}", "}") + after + text
     inputs = ["i", "s", "i", "s"] if "input(" in code else []
